@@ -202,7 +202,7 @@ def cfg_node(cfg: Dict[str, Any], node: N) -> Dict[str, Any]:
     return sub
 
 
-def universal_config(t: Tree, *, with_root_targets: bool = True, reenter_all: bool = True) -> Tuple[Dict[str, Any], List[N], Dict[str, Dict[str, Any]]]:
+def universal_config(t: Tree, *, with_root_targets: bool = True, reenter_all: bool = True, shared: bool = False) -> Tuple[Dict[str, Any], List[N], Dict[str, Dict[str, Any]]]:
     """Universal machine: one event per (source, target) pair.
 
     Events: 'T<i>_<j>' source i -> target j (absolute '#id' target),
@@ -237,6 +237,20 @@ def universal_config(t: Tree, *, with_root_targets: bool = True, reenter_all: bo
         name = f"N{s.idx}"
         on[name] = {"actions": [f"tr:{name}"]}
         events[name] = {"src": s.id, "tgt": None, "kind": "N"}
+        if shared and s.idx != 0 and any(n.kind == "P" for n in nodes):
+            # 'S<j>': ONE event handled by every state, each sending the machine to target j - in a parallel configuration
+            # the same event selects a transition in every region, and an earlier winner may exit a later one's source
+            for tnode in nodes:
+                name = f"S{tnode.idx}"
+                on[name] = {"target": f"#{tnode.id}", "actions": [f"tr:{name}@{s.idx}"]}
+                events.setdefault(name, {"src": nodes[0].id, "tgt": tnode.id, "kind": "S"})
+            # 'U<k>': one event, but source i goes to node (i+k) mod N - regions answer the same event with DIFFERENT
+            # targets (one may leave the parallel state while another moves inside its region)
+            for k in range(1, len(nodes)):
+                tnode = nodes[(s.idx + k) % len(nodes)]
+                name = f"U{k}"
+                on[name] = {"target": f"#{tnode.id}", "actions": [f"tr:{name}@{s.idx}"]}
+                events.setdefault(name, {"src": nodes[0].id, "tgt": None, "kind": "S"})
         cfg_node(cfg, s)["on"] = on
     return cfg, nodes, events
 
@@ -305,6 +319,27 @@ def hist_skeletons(tier: str = "quick") -> List[Tree]:
                     if xkind == "C" and s1 == F_ and s2 == F_:
                         continue
                     out.append(("C", ((xkind, ((hk, ()), s1, s2)), A_)))
+    return out
+
+
+def par_skeletons(tier: str = "quick") -> List[Tree]:
+    """Structured larger trees around one parallel state with something outside it: root C( P(s1, s2[, s3]), A ), regions
+    from a menu of small subtrees.  With the shared events of universal_config (one event answered by every region,
+    each with its own target) they realise "one region leaves the parallel state while another moves inside its
+    region", which needs 6-7 non-root nodes - beyond TREE(N<=5)."""
+    A_, F_ = ("A", ()), ("F", ())
+    menu = [A_, ("C", (A_, A_)), ("C", (A_, F_))]
+    if tier != "quick":
+        menu += [("C", (A_, ("C", (A_, A_)))), ("P", (A_, A_)), ("C", (("Hs", ()), A_, A_))]
+    out: List[Tree] = []
+    for s1 in menu:
+        for s2 in menu:
+            out.append(("C", (("P", (s1, s2)), A_)))
+    if tier != "quick":
+        for s1 in menu[:3]:
+            for s2 in menu[:3]:
+                for s3 in menu[:2]:
+                    out.append(("C", (("P", (s1, s2, s3)), A_)))
     return out
 
 
